@@ -405,7 +405,11 @@ class Taylor3D(object):
         """
         HDF5group.attrs['type'] = self.__class__.__name__
         HDF5group.attrs['Lmax'] = self.Lmax
+        # datasets are named by (n, l): sum entries that share (n, l) (e.g. after adding separated expansions)
+        merged = {}
         for (n, l, c) in self.coefflist:
+            merged[(n, l)] = merged[(n, l)] + c if (n, l) in merged else c
+        for (n, l), c in merged.items():
             coeffstr = self.HDF5str.format(n, l)
             HDF5group[coeffstr] = c
             HDF5group[coeffstr].attrs['n'] = n
